@@ -51,7 +51,7 @@ type c28bObs struct {
 	WrongReply, BatchOrder, BatchCount int64
 	Wit                                []string
 	Requests, Drops, LateAtServer      int64
-	ClientGaveUp                       int64
+	ClientGaveUp, TimeoutUsedMs        int64
 	Nontrivial                         bool
 }
 
@@ -105,6 +105,36 @@ func c28bRun(st *c27Stub, s c28bScript, seed int64) (obs c28bObs) {
 	from := address.NoSender()
 	to := address.New("c28echo", "c28sys", st.Host, st.Port)
 	timeout := time.Duration(s.TimeoutMs) * time.Millisecond
+	{ // workload shaping only: stretch the timeout to 3x the upper quartile of undelayed round trips at the workload's concurrency
+		var rtts []time.Duration
+		var rmu sync.Mutex
+		var pw sync.WaitGroup
+		for a := 0; a < s.Askers; a++ {
+			pw.Add(1)
+			go func(a int) {
+				defer pw.Done()
+				for i := 0; i < 3; i++ {
+					t0 := time.Now()
+					if _, err := cl.RemoteAsk(ctx, from, to, wrapperspb.String("p|"+strconv.Itoa(a)+"|"+strconv.Itoa(i)+"|0"), 20*time.Second); err == nil {
+						rmu.Lock()
+						rtts = append(rtts, time.Since(t0))
+						rmu.Unlock()
+					}
+				}
+			}(a)
+		}
+		pw.Wait()
+		if len(rtts) > 0 {
+			sort.Slice(rtts, func(i, j int) bool { return rtts[i] < rtts[j] })
+			if t := 3 * rtts[len(rtts)*3/4]; t > timeout {
+				timeout = t
+			}
+		}
+		if timeout > 500*time.Millisecond {
+			timeout = 500 * time.Millisecond
+		}
+		obs.TimeoutUsedMs = timeout.Milliseconds()
+	}
 
 	var witMu sync.Mutex
 	wit := func(format string, args ...any) {
@@ -215,7 +245,7 @@ func TestVerif_C28(t *testing.T) {
 	defer r.Finish()
 	r.Rule("client layer: case = 8-64 concurrent askers x 8-20 operations (RemoteAsk with server delays around the timeout, a share with a context deadline of half the timeout; RemoteBatchAsk of 1-20 messages) on a client whose idle pool holds 1-4 connections, against a stub that echoes tokens, answers deadline errors, or closes the connection before/after processing on a scripted share of requests; oracle = reply token == request token, batch replies in request order; non-trivial = more askers than pooled connections, at least one success and one error in the case")
 	rng := r.Rand(2801)
-	n := r.N(60, 1500)
+	n := r.N(40, 1500)
 	st := c27NewStub(t)
 	defer st.Close()
 	for i := 0; i < n; i++ {
@@ -234,6 +264,7 @@ func TestVerif_C28(t *testing.T) {
 		r.Count("stub_connection_drops", obs.Drops)
 		r.Count("stub_deadline_errors", obs.LateAtServer)
 		r.Count("client_deadline_before_server_reply", obs.ClientGaveUp)
+		r.Max("max_client_ask_timeout_used_ms", obs.TimeoutUsedMs)
 		detail := map[string]any{"script": key, "seed": seed, "obs": obs}
 		if obs.WrongReply > 0 {
 			r.Violation("wrong-reply:client", detail)
